@@ -81,7 +81,7 @@ Qed.
 (* ---- splitting a stream into lines ---- *)
 Lemma split_nl_concat s : forall cur ls rest, split_nl cur s = (ls, rest) -> rev cur ++ s = concat ls ++ rest.
 Proof.
-  induction s as [|b r IH]; intros cur ls rest H; cbn [split_nl] in H.
+  induction s as [|b r IH]; intros cur ls rest H; cbn [split_nl] in H; rewrite <- ?rev_alt in H.
   - injection H as <- <-. cbn. now rewrite app_nil_r.
   - destruct (Byte.eqb b nl) eqn:E.
     + destruct (split_nl [] r) as [ls' rest'] eqn:F. injection H as <- <-.
@@ -94,7 +94,7 @@ Lemma split_nl_line l : wf_line l = true -> forall cur s,
 Proof.
   induction l as [|b r IH]; intros W cur s; [discriminate|].
   cbn [wf_line] in W. destruct r as [|c r'].
-  - cbn [app split_nl]. rewrite W. destruct (split_nl [] s). cbn [rev]. reflexivity.
+  - cbn [app split_nl]. rewrite W. destruct (split_nl [] s). rewrite <- rev_alt. cbn [rev]. reflexivity.
   - apply andb_true_iff in W as [W1 W2]. apply negb_true_iff in W1.
     change ((b :: c :: r') ++ s) with (b :: ((c :: r') ++ s)). cbn [split_nl]. rewrite W1.
     rewrite (IH W2). destruct (split_nl [] s). cbn [rev]. now rewrite <- app_assoc.
